@@ -122,7 +122,7 @@ def model(body):
                 t = g.term(d)
                 if t["k"] != "switch":
                     continue
-                sides = [s for s, _ in g.succ[d]]
+                sides = [s for s, _ in g.succ[d] if g.term(s)["k"] != "unreachable"]     # `match` on an Option has an unreachable `otherwise`
                 hits = [s for s in sides if e["bb"] in g.reach((s,))]
                 miss = [s for s in sides if g.reach((s,), avoid={e["bb"]}) & okret and g.term(s)["k"] != "unreachable"]
                 if hits and miss and set(hits) != set(sides) | set():
